@@ -42,3 +42,72 @@ def biased_entropy(ctx, kind):
                  "expected": "completes", "observed": "crash"}], 0
     return [{"what": v["what"], "input": {"history": "python harness/biased_entropy.py %d N" % ctx.seed, "detail": v["what"]},
              "expected": "holds for every value of the random fill", "observed": v["what"]} for v in res[kind]], res["calls"]
+
+
+def rejected_calls(rng):
+    """calls of every pinblock function that are rejected at each of its validation stages
+    (the stage is what matters: state switched before the failing check and never restored)"""
+    key = rng.randbytes(16)
+    pin, pan = "12345", "4111111111111111"
+    bad_pins = ["123", "1234567890123", "12a4", "", "１２３４"]
+    bad_pans = ["123456789012", "41111111111a1111", "", "４１１１１１１１１１１１１１"]
+    out = []
+    for f in ("encode_pinblock_iso_0", "encode_pinblock_iso_3"):
+        out += [(f, (p, pan)) for p in bad_pins] + [(f, (pin, q)) for q in bad_pans]
+    out += [("encode_pinblock_iso_2", (p,)) for p in bad_pins] + [("encode_pin_field_iso_4", (p,)) for p in bad_pins]
+    out += [("encode_pan_field_iso_4", (q,)) for q in ("", "1" * 20, "12a")]
+    out += [("encipher_pinblock_iso_4", (key, p, pan)) for p in bad_pins] + [("encipher_pinblock_iso_4", (key, pin, q)) for q in ("", "1" * 20, "x1")]
+    out += [("encipher_pinblock_iso_4", (b"\x01" * 7, pin, pan))]
+    good0 = pinblock.encode_pinblock_iso_0(pin, pan)
+    for f, bad_blocks in (("decode_pinblock_iso_0", [b"\x14" + good0[1:], good0[:7], bytes([good0[0] & 0xF0 | 3]) + good0[1:], good0[:-1] + b"\x00"]),
+                          ("decode_pinblock_iso_3", [good0, good0[:7]])):
+        out += [(f, (b, pan)) for b in bad_blocks] + [(f, (good0, q)) for q in bad_pans[:2]]
+    out += [("decode_pinblock_iso_2", (b,)) for b in (good0, b"\x2f" + b"\xff" * 7, b"\x24\x12\x3a" + b"\xff" * 5, b"\x24\x12\x34\xff\xff\xff\xff")]
+    out += [("decode_pin_field_iso_4", (b,)) for b in (bytes(16), b"\x43\x12\x3a" + bytes(13), b"\x44\x12\x34\xab" + bytes(12), b"\x44" * 15)]
+    out += [("decipher_pinblock_iso_4", (key, bytes(16), pan)), ("decipher_pinblock_iso_4", (key, bytes(15), pan)),
+            ("decipher_pinblock_iso_4", (key, bytes(16), ""))]
+    return out
+
+
+def after_rejected_calls(rng, viol):
+    """Each rejected call is followed at once by a battery of accepted calls of EVERY format whose results are
+    compared with the from-the-standard construction: a mode switched on before a failing check and not
+    switched back (module or class state) shows up in the battery.  -> number of calls"""
+    n = 0
+    pins = ["1234", "98765", "000000000000", "4929071"]
+    pans = ["4111111111111111", "1234567890123", "5500000000000000004"]
+    key = rng.randbytes(16)
+    for f, args in rejected_calls(rng):
+        r = call(getattr(pinblock, f), *args)
+        n += 1
+        if r[0] == "OK":
+            continue  # accepted after all (a boundary reading): not this battery's business
+        ctxt = "%s%r was rejected (%s); next call" % (f, tuple(a.hex() if isinstance(a, bytes) else a for a in args), r[1])
+        for pin in pins:
+            pan = rng.choice(pans)
+            n += 6
+            b0 = call(pinblock.encode_pinblock_iso_0, pin, pan)
+            e0 = o.from_nibbles(o.xor_nibbles(o.pin_block_nibbles(0, pin), o.pan_block(pan)))
+            b2 = call(pinblock.encode_pinblock_iso_2, pin)
+            e2 = o.from_nibbles(o.pin_block_nibbles(2, pin))
+            b3 = call(pinblock.encode_pinblock_iso_3, pin, pan)
+            f4 = call(pinblock.encode_pin_field_iso_4, pin)
+            checks = [("encode_pinblock_iso_0", (pin, pan), b0 == ("OK", e0), e0.hex(), b0),
+                      ("encode_pinblock_iso_2", (pin,), b2 == ("OK", e2), e2.hex(), b2)]
+            ok3 = b3[0] == "OK" and len(b3[1]) == 8
+            if ok3:
+                nib = unmask(b3[1], pan)
+                ok3 = nib[:2 + len(pin)] == [3, len(pin)] + [int(c) for c in pin] and all(x >= 10 for x in nib[2 + len(pin):])
+            checks.append(("encode_pinblock_iso_3", (pin, pan), ok3, "3 L digits fill A-F", b3))
+            ok4 = f4[0] == "OK" and len(f4[1]) == 16 and o.nibbles(f4[1]) == o.pin_field4_nibbles(pin, f4[1][8:])
+            checks.append(("encode_pin_field_iso_4", (pin,), ok4, "4 L digits A.. + 8 random bytes", f4))
+            d0 = call(pinblock.decode_pinblock_iso_0, e0, pan)
+            checks.append(("decode_pinblock_iso_0", (e0.hex(), pan), d0 == ("OK", pin), pin, d0))
+            e4 = call(pinblock.encipher_pinblock_iso_4, key, pin, pan)
+            d4 = call(pinblock.decipher_pinblock_iso_4, key, e4[1], pan) if e4[0] == "OK" else e4
+            checks.append(("decipher(encipher) iso_4", (key.hex(), pin, pan), d4 == ("OK", pin), pin, d4))
+            for fn, a, ok, exp, obs in checks:
+                if not ok:
+                    viol.append({"what": "result depends on an earlier rejected call: " + ctxt, "input": {"fn": fn, "args": list(a), "history": ctxt},
+                                 "expected": exp, "observed": repr(obs)[:200]})
+    return n
